@@ -58,9 +58,9 @@ Proof.
   - intros els tbl e f i j W Ht Hin.
     destruct (vertex_rows_correct els tbl e f i j W Ht Hin) as (_ & _ & _ & A & B & C & _). auto.
   - intros order rc re rv proj i0 i1 Ho Hc He Hv H0 H1 Hn.
-    destruct (offsets_select_remap order rc re rv proj Ho Hc He Hv) as (_ & _ & E & _). apply E; assumption.
+    destruct (offsets_select_remap order rc re rv proj q_w Ho Hc He Hv) as (_ & _ & E & _). apply E; assumption.
   - intros order rc re rv proj k Ho Hc He Hv Hk.
-    destruct (offsets_select_remap order rc re rv proj Ho Hc He Hv) as (_ & _ & _ & V & _). apply V; assumption.
+    destruct (offsets_select_remap order rc re rv proj q_w Ho Hc He Hv) as (_ & _ & _ & V & _). apply V; assumption.
   - exact remap_edge_places.
   - exact remap_vertex_places.
 Qed.
